@@ -419,6 +419,14 @@ impl super::DebugSession {
     }
 
     pub(super) fn handle_continue(&mut self, req: &DapRequest) -> anyhow::Result<()> {
+        // `continue` is answered before the debuggee runs, so a request that cannot be
+        // honoured (no process yet, or it has exited) must be refused before that answer
+        match self.debugger.as_ref().map(|dbg| dbg.thread_state()) {
+            None => return self.send_err(req, "continue: debugger not initialized"),
+            Some(Err(e)) => return self.send_err(req, format!("continue: {e}")),
+            Some(Ok(_)) => {}
+        }
+
         self.begin_running();
 
         let thread_id = self.current_thread_id();
